@@ -242,9 +242,82 @@ func tokensGetSeqImpl(dir string, fields []frac.VerifField, tids []uint32) (res 
 	return "ok " + vh.JoinStrs(out, ",")
 }
 
+// tokensTableCodecImpl writes a synthetic token table with the real writer and re-loads it with token.TableLoader.
+func tokensTableCodecImpl(dir string, spec string) (res string) {
+	defer func() {
+		if r := recover(); r != nil {
+			res = fmt.Sprint("panic ", r)
+		}
+	}()
+	var fields []frac.VerifTableField
+	for _, fs := range strings.Split(spec, "|") {
+		name, es, _ := strings.Cut(fs, "=")
+		vf := frac.VerifTableField{Name: string(unx(name))}
+		if es != "-" && es != "" {
+			for _, e := range strings.Split(es, ";") {
+				p := strings.Split(e, ":")
+				u := func(x string) uint32 { v, _ := strconv.ParseUint(x, 10, 32); return uint32(v) }
+				te := &token.TableEntry{StartTID: u(p[0]), ValCount: u(p[1]), StartIndex: u(p[2]), BlockIndex: u(p[3]), MaxVal: string(unx(p[5]))}
+				if p[4] != "-" {
+					te.MinVal = string(unx(p[4]))
+				}
+				vf.Entries = append(vf.Entries, te)
+			}
+		}
+		fields = append(fields, vf)
+	}
+	f, err := os.CreateTemp(dir, "tokc-*.index")
+	if err != nil {
+		return "err " + err.Error()
+	}
+	defer func() { f.Close(); os.Remove(f.Name()) }()
+	w, err := frac.VerifNewIndexWriter(f)
+	if err != nil {
+		return "err " + err.Error()
+	}
+	if err := w.WriteInfo(); err != nil {
+		return "err " + err.Error()
+	}
+	if err := w.WriteTokenTableOnly(fields, 1); err != nil {
+		return "err " + err.Error()
+	}
+	if err := w.Finish(); err != nil {
+		return "err " + err.Error()
+	}
+	reader := disk.NewIndexReader(readLimiter, f, cache.NewCache[[]byte](nil, nil))
+	var blocks []string
+	for i := uint32(2); ; i++ {
+		h, err := reader.GetBlockHeader(i)
+		if err != nil || h.Len() == 0 {
+			break
+		}
+		data, _, err := reader.ReadIndexBlock(i, nil)
+		if err != nil {
+			return "err " + err.Error()
+		}
+		blocks = append(blocks, vh.Hex(data))
+	}
+	loaded := token.NewTableLoader("verif", &reader, cache.NewCache[token.Table](nil, nil)).Load()
+	var lf []string
+	for _, n := range vh.SortedKeys(loaded) {
+		fd := loaded[n]
+		var es []string
+		for _, e := range fd.Entries {
+			es = append(es, fmt.Sprintf("%d:%d:%d:%d:%s", e.StartIndex, e.StartTID, e.BlockIndex, e.ValCount, xh([]byte(e.MaxVal))))
+		}
+		lf = append(lf, fmt.Sprintf("%s=%s[%s]", xh([]byte(n)), xh([]byte(fd.MinVal)), vh.JoinStrs(es, ";")))
+	}
+	return "ok " + vh.JoinStrs(blocks, "|") + " loaded=" + vh.JoinStrs(lf, "|")
+}
+
 func tokensAnswer(line, tmp string) (string, bool) {
 	f := strings.Fields(line)
 	switch {
+	case len(f) == 3 && f[0] == "tokens.tablecodec":
+		if f[1] != "16384" {
+			return "err fixed block size", true
+		}
+		return tokensTableCodecImpl(tmp, f[2]), true
 	case len(f) == 5 && f[0] == "tokens.getseq":
 		if f[1] != "16384" || f[2] != "1" {
 			return "err fixed block size / first block index", true
@@ -361,13 +434,23 @@ func runTokenChannels(o vh.Opts, rng *vh.RNG, rep *vh.Report, tmp string) {
 		layouts = append(layouts, fs)
 		nMany++
 	}
+	for i := 0; i < o.Pick(2, 10); i++ { // long tokens with a long common prefix spread over several token blocks
+		var toks [][]byte
+		plen := []int{33, 80, 100}[i%3]
+		prefix := mk(i, plen)
+		for t := rng.Range(250, 500); t > 0; t-- {
+			toks = append(toks, append(append([]byte{}, prefix...), []byte(fmt.Sprintf("%08d", rng.Intn(1000000)))...))
+		}
+		layouts = append(layouts, [][][]byte{sortedToks(toks)})
+		nMany++
+	}
 	for li, fs := range layouts {
 		kind := "exhaustive"
 		if li >= nExh {
 			kind = "random"
 		}
 		if li >= len(layouts)-nMany {
-			kind = "many-fields-multi-block-table"
+			kind = "many-fields-or-long-common-prefix"
 		}
 		line := "tokens.gen new 16384 " + fmtTokFields(fs)
 		impl, _ := tokensAnswer(line, dir)
@@ -427,6 +510,38 @@ func runTokenChannels(o vh.Opts, rng *vh.RNG, rep *vh.Report, tmp string) {
 	rep.AddChannel(tab, o.Driver)
 	rep.AddChannel(tbb, o.Driver)
 	rep.AddChannel(seqc, o.Driver)
+
+	tc := vh.NewChannel("tokens.tablecodec", "writeTokenTableBlocks + token.TableLoader on SYNTHETIC token tables (no token blocks needed) vs writeTable / loadTable: fields with 0..700 entries (incl. far more than 256 = RegularBlockSize/64 entries in one field), border values of 0..120 bytes with long common prefixes, many fields per table block and fields larger than a table block; compared: raw bytes of every table block and the re-loaded table (MinVal, every entry); non-trivial = some field has > 256 entries or a border value longer than 72 bytes")
+	for i := 0; i < o.Pick(12, 120); i++ {
+		nf := rng.Range(1, 6)
+		var fparts []string
+		big := false
+		tid := 1
+		for fi := 0; fi < nf; fi++ {
+			ne := []int{0, 1, 3, 40, 257, 300, 700}[rng.Intn(7)]
+			if i < 3 && fi == 0 {
+				ne = []int{257, 300, 700}[i]
+			}
+			prefix := mk(i+fi, []int{0, 5, 30, 33, 80, 110}[rng.Intn(6)])
+			var es []string
+			for e := 0; e < ne; e++ {
+				mx := append(append([]byte{}, prefix...), []byte(fmt.Sprintf("%06d", e*3+2))...)
+				mn := "-"
+				if e == 0 {
+					mn = xh(append(append([]byte{}, prefix...), []byte("000000")...))
+				}
+				vc := rng.Range(1, 9)
+				es = append(es, fmt.Sprintf("%d:%d:%d:%d:%s:%s", tid, vc, rng.Intn(50), 1+e/3, mn, xh(mx)))
+				tid += vc
+				big = big || ne > 256 || len(mx) > 72
+			}
+			fparts = append(fparts, fmt.Sprintf("%s=%s", xh([]byte(fmt.Sprintf("fld%02d", fi))), vh.JoinStrs(es, ";")))
+		}
+		line := "tokens.tablecodec 16384 " + strings.Join(fparts, "|")
+		impl, _ := tokensAnswer(line, dir)
+		tc.Add(line, impl, big, fmt.Sprintf("fields=%d", nf))
+	}
+	rep.AddChannel(tc, o.Driver)
 
 	sel := vh.NewChannel("tokens.select", "token.Table.SelectEntries vs selectEntries: EXHAUSTIVE over hints of length 0..2 over {a,b}, MinVal and 1..3 sorted MaxVals of length 0..3 over {a,b} (thorough; quick samples 1/3), plus random byte strings; answer = the selected entry range; non-trivial = hint non-empty and >= 2 entries")
 	var words []string
